@@ -59,6 +59,37 @@ def random_tree(rng, cats, words, lang, max_leaves=5, symbols=None, token_style=
     return build(n)
 
 
+_nb_triples = []
+
+
+def nb_triples():
+    """(x, y, parent) over the shipped English seen rules where parent is the grammar's result for (x, y) with [nb]
+    added to one bare NP/N (the CCGbank analysis of possessives and determiners has such nodes): the file's category
+    differs from the rule's result only by the feature the English rules ignore"""
+    if not _nb_triples:
+        import random as _random
+        from depccg.cat import Category
+        from depsim.props.c14 import _toggle_nb
+        from depsim import grammars
+        binary, _ = grammars.real_grammar('en')
+        pairs, _, _ = gen.seen_index('en')
+        r = _random.Random(20261003)
+        for x, y in pairs[::7]:
+            try:
+                res = binary(Category.parse(x), Category.parse(y))
+            except Exception:
+                continue
+            for q in res[:1]:
+                c = str(q.cat)
+                if '[nb]' not in c:
+                    t = _toggle_nb(c, r)
+                    if t:
+                        _nb_triples.append((x, y, t))
+        if not _nb_triples:
+            _nb_triples.append(('NP', '(NP[nb]/N)\\NP', 'NP[nb]/N'))
+    return _nb_triples
+
+
 def same_tree(a, b, lang, check_symbols):
     """first difference between an original tree a and a re-read tree b (None = same)"""
     from depccg.utils import normalize
@@ -122,6 +153,9 @@ class C20(ParserSessionProp):
         k['use_beta'] = False
         return k
 
+    def prepare(self):
+        nb_triples()           # computed once in the parent, inherited by the per-run children
+
     def generate(self, seed, index, tier, options):
         spec = super().generate(seed, index, tier, options)
         rng = gen.stream(seed, 'C20:files', index)
@@ -145,6 +179,7 @@ class C20(ParserSessionProp):
             'blank_lines': rng.random() < 0.2,
             'token_style': rng.choice(['plain', 'annotated']),
             'stack_scan': gen.stream(seed, 'C20:stack', index).random() < 0.3,
+            'nb_parent': gen.stream(seed, 'C20:nb', index).random() < 0.3,
         }
         return spec
 
@@ -174,6 +209,15 @@ class C20(ParserSessionProp):
             words = [w for w in words if '(' not in w and ')' not in w]
         if f['fmt'] == 'ja':
             words = [w for w in words if not any(c in w for c in '/{}')]
+        if lang == 'en' and f.get('nb_parent'):
+            from depccg.cat import Category
+            from depccg.tree import Tree
+            from depccg.types import Token
+            x, y, parent = rng.choice(nb_triples())
+            trees.append(('arbitrary', Tree.make_binary(
+                Category.parse(parent), Tree.make_terminal(Token.of_word('John'), Category.parse(x)),
+                Tree.make_terminal(Token.of_word("'s"), Category.parse(y)), 'fa', '>', True)))
+            bump(stats, 'probe:node_whose_category_differs_from_the_rule_result_by_nb')
         for _ in range(f['n_random_trees']):
             trees.append(('arbitrary', random_tree(rng, world.categories, words, lang, symbols=symbols,
                                                    token_style=f.get('token_style', 'plain'))))
